@@ -8,6 +8,9 @@
     It is a Python *set*; the order in which `list(set)` yields its elements is not specified (string hashes are
     randomised per process), so the model takes the iteration order as a parameter `SetOrder` and every theorem
     holds for every order that is a permutation (`SetOrder.ok`).
+  * `for algorithm_name in algorithm_names: if algorithm_name.startswith('gss-') and ("%s-*" % name[0:name.rindex('-')]) in adb['kex']:
+    algorithms_dict['kex'].add(algorithm_name)` — `gssKnown` / `gssExtra`: a requested `gss-<method>-<suffix>` name whose wildcard form is a
+    key of `kex` joins the `kex` set (the D38 repair), so it is printed through `output_algorithm` and is not listed as not found
   * `padding = len(max(algorithm_names, key=len))`
   * per `alg_types` entry — in the order kex, key, **mac**, enc — `output_algorithms(...)` when the set is not empty: the
     audit's own `output_algorithm` (`Report.algLines` / `Output.algItems`) with no host keys and no modulus sizes,
@@ -45,8 +48,23 @@ def requested (arg : Str) : List Str := Text.splitOn ',' arg
 /-- the keys of `adb` -/
 def cats (db : DB) : List Str := db.map (·.1)
 
-/-- `algorithms_dict[c]`, in database order -/
-def found (db : DB) (names : List Str) (c : Str) : List Str := (DBm.keys db c).filter (fun k => names.contains k)
+/-- a Python set built by `add`: every element once (which occurrence survives is immaterial: the iteration order is a parameter) -/
+def dedup : List Str → List Str
+  | [] => []
+  | x :: xs => if xs.contains x then dedup xs else x :: dedup xs
+
+/-- `algorithm_name.startswith('gss-') and ("%s-*" % algorithm_name[0:algorithm_name.rindex('-')]) in adb['kex']`
+    (the rewriting is `output_algorithm`'s own: `Report.gssNormalize`) -/
+def gssKnown (db : DB) (n : Str) : Bool :=
+  Text.startsWith n (s "gss-") && (DBm.keys db kexC).contains (Report.gssNormalize kexC n)
+
+/-- the names `algorithms_dict['kex'].add(…)` really adds: requested gss names covered by a wildcard entry that are not already in the set -/
+def gssExtra (db : DB) (names : List Str) : List Str :=
+  dedup (names.filter (fun n => gssKnown db n && !(DBm.keys db kexC).contains n))
+
+/-- `algorithms_dict[c]` after the gss loop: the requested keys of the category in database order, then (for `kex`) the added gss names -/
+def found (db : DB) (names : List Str) (c : Str) : List Str :=
+  (DBm.keys db c).filter (fun k => names.contains k) ++ (if c = kexC then gssExtra db names else [])
 
 /-- `len(max(algorithm_names, key=len))` -/
 def padding (names : List Str) : Nat := (names.map List.length).foldl max 0
